@@ -452,6 +452,37 @@ func runScript(r *lib.Run, idx int, sc script, tornBudget int) {
 		} else {
 			r.Count("api_boundaries_with_unchanged_disk(skipped)", 1)
 		}
+		// layer 1b: log files removed by this call come back (an unlink that was not yet
+		// made durable by a directory fsync is rolled back by a power loss): the
+		// watermark must keep their heights dead. Only files that were already
+		// closed before the call are restored (their content is known to be final).
+		if touched {
+			var removed []string
+			pn := prev.logNums()
+			for _, k := range pn {
+				if _, still := cur[logName(k)]; !still && k != pn[len(pn)-1] {
+					removed = append(removed, logName(k))
+				}
+			}
+			for mask := 1; mask < 1<<len(removed) && mask <= 7; mask++ {
+				im := cur.clone()
+				var names []string
+				for b, n := range removed {
+					if mask&(1<<b) != 0 {
+						im[n] = prev[n]
+						names = append(names, n)
+					}
+				}
+				_, p := checkImage(im, altsOf(m, nil), "unlink-rollback")
+				r.Eval(1)
+				r.Count("images_unlink_rolled_back", 1)
+				if p != nil {
+					bad++
+					report("unlink-rollback", i, "restored "+strings.Join(names, ",")+" | "+im.describe(), p)
+					break
+				}
+			}
+		}
 		// layer 2: torn / corrupted tails of what this call wrote
 		if (o.Kind == opFlush || o.Kind == opClose) && touched {
 			plan, why := planTorn(prev, cur)
